@@ -17,6 +17,14 @@ let parse_snapshot (s : string) : ((bytes * n) * bytes) list =
 let last_snapshot (obs : string list) : ((bytes * n) * bytes) list option =
   List.fold_left (fun acc o -> if String.length o > 1 && o.[0] = 's' && o.[1] = '{' then Some (parse_snapshot o) else acc) None obs
 
+(* an archive next to its original - what an interrupted or failed compression leaves until the next cleanup -
+   holds nothing that the (complete) original does not hold: a reader of the files ignores it *)
+let without_shadowed_archives (snap : ((bytes * n) * bytes) list) : ((bytes * n) * bytes) list =
+  List.filter (fun ((nm, _), _) ->
+      match strip_suffix (dot :: gz_sfx) nm with
+      | Some orig -> not (List.exists (fun ((m, _), _) -> beq m orig) snap)
+      | None -> true) snap
+
 let annotations (pre : string list) : (string * string) list =
   List.filter_map (fun t -> match String.index_opt t '=' with
       | Some i -> Some (String.sub t 0 i, String.sub t (i + 1) (String.length t - i - 1))
@@ -258,7 +266,7 @@ let c19_oracle (ops : op list) (obs : string list) : string =
   if !panic then "fail an-operation-panicked" else
   match !cfg, !last with
   | Some c, Some ob ->
-    let snap = parse_snapshot ob in
+    let snap = without_shadowed_archives (parse_snapshot ob) in
     let stream = ref (stream_of c snap) in
     let missing = ref 0 and bad = ref "" in
     (* with a cleanup limit the oldest records may be gone: skip them up to the first record the stream starts with *)
@@ -310,6 +318,9 @@ let c11_oracle (ops : op list) (obs : string list) : string =
   match !cfg, !last with
   | Some c, Some ob ->
     let snap = parse_snapshot ob in
+    (* an archive next to its (complete) original - the state a kill between "finish" and "remove original" leaves -
+       holds nothing that the original does not: a reader ignores it *)
+    let snap = without_shadowed_archives snap in
     let stream = ref (stream_of c snap) in
     let rs = List.rev !recs in
     let rec skip_cleaned = function
